@@ -195,7 +195,9 @@ func doBind(sc *Collection, originalInvokeF *provider, originalInitF *provider, 
 		fm := funcs[i]
 		fm.vmapCount = vCount
 		addToVmap(fm, inputParams, downVmap, fm.downRmap, &vCount)
-		addToVmap(fm, returnParams, upVmap, fm.upRmap, &vCount)
+		// returned values are stored under their own types: upRmap only says under which
+		// type a value that is received from inner() is found
+		addToVmap(fm, returnParams, upVmap, nil, &vCount)
 		fm.mustZeroIfInnerNotCalled = vmapMapped(upVmap)
 	}
 
